@@ -5,7 +5,7 @@ from vf import core
 
 
 # bounded checkers that have been reviewed and triaged (a file that is still being written is not used)
-BOUNDED_READY = {"C01", "C02", "C04", "C05", "C06", "C07", "C08", "C09", "C10", "C13", "C14", "C15", "C16", "C17", "C19", "C20"}
+BOUNDED_READY = {"C01", "C02", "C03", "C04", "C11", "C12", "C18", "C05", "C06", "C07", "C08", "C09", "C10", "C13", "C14", "C15", "C16", "C17", "C19", "C20"}
 
 
 def add_bounded(rep: core.Report, ctx: core.Ctx, pid: str):
